@@ -171,6 +171,38 @@ def manydirs(cfg=None):
     return program(c, st.builds(lambda a, r: a + r, adds, rms))
 
 
+def ptedge(cfg=None, reopen_ok=False):
+    """Path tables at the 4096-byte (two-sector) boundary: directories with identifiers of one exact length, as many
+    as it takes to bring the table just below / just above 4096 bytes, then single removals and additions with a
+    write after each, so that the table size steps through the window around the boundary one record at a time."""
+    c = cfg if cfg is not None else cfg_st()
+
+    def build(length, extra, steps, lead, mids):
+        rec = 8 + length + (length % 2)
+        k0 = (4096 - 10) // rec                # this many records still fit in 4096 bytes together with the root's
+        jl = {12: 2, 14: 3, 16: 4}[rec]         # Joliet records (8 + 2 * len) of the same size
+        ops = []
+        for i in range(k0 - 2 + extra):
+            ops.append({'k': 'add_dir', 'd': 0, 'ns': 7, 'sz': 0, 'rsz': 0, 'usz': 0, 'lead': lead, 'salt': i, 'mode': None, 'reuse': 0,
+                        'xl': {'iso': length, 'rr': 6, 'jol': jl, 'udf': 6}})
+        ops.append({'k': 'write'})
+        for j, s_ in enumerate(steps):
+            if s_ == 0:
+                ops.append({'k': 'rm_dir', 'd': 1 + (lead * 7 + j * 13) % 200, 'ns': 7})
+            elif s_ == 1:
+                ops.append({'k': 'add_dir', 'd': 0, 'ns': 7, 'sz': 0, 'rsz': 0, 'usz': 0, 'lead': lead + 1, 'salt': 500 + j, 'mode': None, 'reuse': 0,
+                            'xl': {'iso': length, 'rr': 6, 'jol': jl, 'udf': 6}})
+            else:
+                ops.append(mids[j % len(mids)] if mids else {'k': 'query', 'q': 0, 'i': 0})
+            ops.append({'k': 'write'})
+        return ops
+    mid_choices = [query, force, add_fp(d=st.just(0), length=SMALL_LEN)]
+    if reopen_ok:
+        mid_choices.append(reopen)
+    return program(c, st.builds(build, st.sampled_from([4, 5, 6, 7, 8, 8]), st.integers(0, 6), st.lists(st.sampled_from([0, 0, 0, 1, 1, 2]), min_size=4, max_size=12),
+                                st.integers(0, 30), st.lists(st.one_of(*mid_choices), min_size=0, max_size=3)))
+
+
 def any_profile(reopen_ok=False, weights=None, with_manydirs=False):
     w = weights or {'mixed': 5, 'growshrink': 2, 'deep': 2, 'links': 3, 'boot': 2}
     table = {'mixed': mixed(reopen_ok), 'growshrink': growshrink(reopen_ok=reopen_ok), 'deep': deep(reopen_ok=reopen_ok),
@@ -181,6 +213,10 @@ def any_profile(reopen_ok=False, weights=None, with_manydirs=False):
         table['exactfill'] = exactfill(reopen_ok=reopen_ok)
     if 'cegap' in w:
         table['cegap'] = cegap(reopen_ok=reopen_ok)
+    if 'samename' in w:
+        table['samename'] = samename(reopen_ok=reopen_ok)
+    if 'ptedge' in w:
+        table['ptedge'] = ptedge(reopen_ok=reopen_ok)
     alts = []
     for name, n in w.items():
         s = table[name].map(lambda p, name=name: dict(p, profile=name))
@@ -249,6 +285,24 @@ def any_profile(reopen_ok=False, weights=None, with_manydirs=False):
     total = sum(w.values())
     hyb = hybrid(reopen_ok=reopen_ok).map(lambda p: dict(p, profile='hybrid'))
     return st.one_of(*([base] * max(1, total // max(nh, 1) // 2) + [hyb])) if nh else base
+
+
+def samename(cfg=None, reopen_ok=True):
+    """The same names in several directories: files that share a name (different content) and hard links that
+    keep the name of their target in another directory (the everyday hard link), then unlink / remove / add
+    interleavings with optional reopen - anything that identifies an entry by its name or record fields instead
+    of its place shows here."""
+    c = cfg if cfg is not None else cfg_st(joliet=st.sampled_from([3, 3, 1, None]), udf=st.sampled_from([True, False, False]))
+    R = st.integers(1, 1 << 16)
+    dirs = st.lists(add_dir(d=st.sampled_from([0, 0, 1])), min_size=2, max_size=4)
+    files = st.lists(add_fp(d=I, length=st.sampled_from([1, 300, 2049, 5000, 0]), file=st.just(False)), min_size=1, max_size=3)
+    twins = st.lists(st.builds(lambda o, r: dict(o, reuse=r), add_fp(d=I, length=st.sampled_from([2, 301, 2050, 0]), file=st.just(False)), R), min_size=1, max_size=4)
+    lnk = st.builds(lambda o, r: dict(o, reuse=r), add_link, R)
+    body_choices = [lnk, lnk, lnk, rm_link, rm_link, rm_link, rm_file, add_fp(d=I, length=SMALL_LEN), add_dir(d=st.just(0)), rm_dir, write, query, force]
+    if reopen_ok:
+        body_choices += [reopen, reopen]
+    body = st.lists(st.one_of(*body_choices), min_size=6, max_size=24)
+    return program(c, st.builds(lambda a, b, t, l, x: a + b + t + l + x, dirs, files, twins, st.lists(lnk, min_size=2, max_size=5), body))
 
 
 def biglinks(cfg=None, reopen_ok=True):
